@@ -95,8 +95,8 @@ def run(R):
             R.disagree("holds_exactly vs numpy can_cast(safe)", case, np_exact, exact)
 
     # ------------------------------------------------------------ --generate-info
-    n_cases = 220 if quick else 3000
-    n_sub = 8 if quick else 40
+    n_cases = 900 if quick else 5000
+    n_sub = 10 if quick else 40
     cases = []
     for i in range(n_cases):
         aff, akind = random_affine(rng, np)
@@ -297,7 +297,7 @@ def run(R):
 
     # ------------------------------------------------------------ nifti_to_neuroglancer_transform alone
     tcases = []
-    for _ in range(150 if quick else 3000):
+    for _ in range(600 if quick else 3000):
         exact = rng.random() < 0.5
         if exact:
             m = [[float(rng.randrange(-64, 65)) / rng.choice([1, 2, 4]) for _ in range(4)] for _ in range(4)]
@@ -343,7 +343,7 @@ def run(R):
     jcases = []
     specials = [0.0, -0.0, 1.0, -1.0, 1.5, 1e16, 1e15, 123456789012345.0, 2.0 ** 53, 1e22, 1e-7, 0.1, -2.5e-5,
                 11000000.0, -20750000.0, 1e21, 999999999999999.9, 5e-324, 1.7976931348623157e308]
-    for _ in range(120 if quick else 2000):
+    for _ in range(500 if quick else 2000):
         rows = rng.choice([1, 3, 4])
         cols = rng.choice([1, 4])
         mat = [[rng.choice(specials + [float(rng.randrange(-10 ** 9, 10 ** 9)), rng.uniform(-1e7, 1e7),
